@@ -102,7 +102,7 @@ def generate(rng, tier, index):
     tp = gen.CUSTOM_TYPE if rng.random() < 0.12 else gen.RDF_TYPE
     triples = gen.retype(gen.ensure_class(triples), tp)
     # rdflib-parsed sources (url) relabel blank nodes on every pass (C08's stated exception): no bnodes there
-    sources = ["raw", "file", "files", "gz", "rdflib"] + ([] if bnodes else ["url", "urls"]) + (["endpoint", "endpoint"] if endpoint_ok else [])
+    sources = ["raw", "file", "files", "gz", "zip", "zips", "rdflib"] + ([] if bnodes else ["url", "urls"]) + (["endpoint", "endpoint"] if endpoint_ok else [])
     n_sh = 2 if rng.random() < 0.4 else 1
     if tier == "thorough" and rng.random() < 0.15:
         n_sh = 3
@@ -183,6 +183,9 @@ def generate(rng, tier, index):
                 options += [{"kind": "source_eio", "n": rng.randint(0, 2 * n_lines),
                              "errno": rng.choice(["EIO", "EIO", "ESTALE", "EINTR", "EAGAIN"])}] * 2
                 options += [{"kind": "source_open", "k": rng.randint(0, 5), "errno": rng.choice(["ENOENT", "EACCES"])}]
+            if src in ("zip", "zips"):
+                options += [{"kind": "source_eio", "n": rng.randint(0, 2 * n_lines),
+                             "errno": rng.choice(["EIO", "EIO", "ESTALE", "EINTR"])}] * 3
             if src == "gz":
                 options += [{"kind": "torn_gz", "keep": rng.random()}] * 2
                 options += [{"kind": "source_eio", "n": rng.randint(0, 2 * n_lines),
@@ -257,6 +260,22 @@ class _World(object):
             if tag.startswith("sut"):
                 self.gz_files[p] = data
             return {"graph_file_input": p, "compression_mode": "gz"}, None
+        if src in ("zip", "zips"):
+            import zipfile
+            self.n_files += 1
+            k = max(1, len(self.triples) // 4)
+            parts = [self.triples[i:i + k] for i in range(0, len(self.triples), k)] or [[]]
+            groups = [parts] if src == "zip" else [parts[:2], parts[2:]]
+            paths = []
+            for a, members in enumerate(groups):
+                p = sim.path("g_%s_%d_%d.zip" % (tag, self.n_files, a))
+                with zipfile.ZipFile(p, "w") as z:
+                    for j, m in enumerate(members):
+                        z.writestr("part%d.nt" % j, gen.to_nt(m))
+                paths.append(p)
+            if src == "zip":
+                return {"graph_file_input": paths[0], "compression_mode": "zip"}, None
+            return {"graph_list_of_files_input": paths, "compression_mode": "zip"}, None
         if src == "files":
             self.n_files += 1
             k = max(1, len(self.triples) // 3)
